@@ -43,6 +43,7 @@ type thread struct {
 	h       uint64
 	label   unsafe.Pointer
 	condOK  bool // cond wait: signalled
+	childDaemon bool
 }
 
 type op struct {
@@ -648,7 +649,7 @@ func Go(fn func()) {
 		go fn()
 		return
 	}
-	goNamed(e, t, fn, callerName(2), t.daemon)
+	goNamed(e, t, fn, callerName(2), t.daemon || t.childDaemon)
 }
 
 // GoNamed starts a named controlled thread; daemon threads do not keep the execution alive.
@@ -722,6 +723,13 @@ func Choose(n int) int {
 func Daemon() {
 	if _, t := managed(); t != nil {
 		t.daemon = true
+	}
+}
+
+// DaemonChildren makes threads spawned by the caller from now on daemons (on=true) or not.
+func DaemonChildren(on bool) {
+	if _, t := managed(); t != nil {
+		t.childDaemon = on
 	}
 }
 
